@@ -512,7 +512,7 @@ fn step_from(loud: bool, fixed_stage: Option<u8>) {
     }
     // generators run only in their own stage
     unsafe {
-        assert!(GEN_CAPTURES_CALLS == (st0 <= 1) as u8);
+        assert!(GEN_CAPTURES_CALLS <= 1 && (GEN_CAPTURES_CALLS == 0 || st0 <= 1));
         assert!(GEN_QUIETS_CALLS <= 1 && (GEN_QUIETS_CALLS == 0 || (!loud && st0 <= 3)));
     }
 }
